@@ -21,13 +21,13 @@ ASSUMPTIONS = [
     "file I/O, np.savez/pickle, the test-set generator and the feasibility tester are exercised, not proved",
 ]
 PARTIAL = ["text-level parse(render(records)) = records is carried by the byte comparison and the loader comparison, not by a theorem"]
-BUDGET_S = {"quick": 150, "thorough": 1500}
+BUDGET_S = {"quick": 150, "thorough": 900}
 
 
 def gen(rng, tier):
     n_cases = 220 if tier == "quick" else 3000
     for k in range(n_cases):
-        if k % 40 == 39:
+        if k % 40 == 39 and k < (240 if tier == "quick" else 400):
             # (G1 below horizon ~15 has no travel arc with positive time and get_sequence_based cannot size its sequences:
             #  such horizons are outside the generator's domain)
             yield dict(mode="testset", horizons=[15.5] if tier == "quick" else [15.5, 20, 25])
